@@ -916,7 +916,7 @@ func (fs *fileStore) iterate(outFields []core.Field, ms *memstore, okayToReuseBu
 	// Read remaining stuff from memstore
 	if ms != nil {
 		offsetsBySource = offsetsBySource.Advance(ms.offsetsBySource)
-		ms.tree.Walk(ctx, func(key []byte, msColumns []encoding.Sequence) (bool, bool, error) {
+		err = ms.tree.Walk(ctx, func(key []byte, msColumns []encoding.Sequence) (bool, bool, error) {
 			columns := make([]encoding.Sequence, len(outFields))
 			for i, msColumn := range msColumns {
 				memToOut(columns, i, msColumn)
@@ -924,6 +924,9 @@ func (fs *fileStore) iterate(outFields []core.Field, ms *memstore, okayToReuseBu
 			more, err := onRow(bytemap.ByteMap(key), columns, nil)
 			return more, false, err
 		})
+		if err != nil {
+			return offsetsBySource, err
+		}
 	}
 
 	return offsetsBySource, nil
